@@ -27,7 +27,9 @@ RULE += (
     "task already on the scheduler's stack; a third of the flushing programs get one more run in which the "
     "options are switched on at the first scheduler flush instead of before the run. In one program in five "
     "every task's first argument prints with per-cent signs (names and dumps are built from repr() of the "
-    "arguments). In one program in three tasks call profiler.flush() after each synchronous call they make."
+    "arguments). In one program in three tasks call profiler.flush() after each synchronous call they make. "
+    "Task styles partial (functools.partial over a generator function) and callable (instance with __call__) "
+    "occur in the programs."
 )
 ASSUMPTIONS = [
     "programs whose default-option trace is not reproducible (priority ties) are skipped and counted",
